@@ -210,6 +210,9 @@ func (w *World) VerifyFunc(fn *ssa.Function) *Ctx {
 	}
 	for _, fv := range fn.FreeVars {
 		declare(fv.Name(), fv.Type(), fv)
+		if _, isPtr := fv.Type().Underlying().(*types.Pointer); isPtr {
+			c.assert(not(eq(f.vals[fv].T, "0"))) // address of a captured variable
+		}
 	}
 	for _, p := range fn.Params {
 		declare(p.Name(), p.Type(), p)
@@ -239,6 +242,9 @@ func (w *World) VerifyFunc(fn *ssa.Function) *Ctx {
 	c.paramVals = f.params
 	c.entryEnv = f.specEnv(st.clone(), st.clone())
 	c.entryEnv.locals = false
+	if ct != nil && ct.HasAssigns && !ct.NoFrame {
+		w.setupFrame(c, f, ct, st)
+	}
 	f.run(st, "true")
 	if len(f.rets) > 0 {
 		var gs []string
@@ -272,6 +278,7 @@ func (w *World) VerifyFunc(fn *ssa.Function) *Ctx {
 		env := f.specEnv(r.st, f.entry)
 		env.at = nil
 		env.locals = false
+		env.goal = true
 		for i, v := range r.vals {
 			if i < len(names) && names[i] != "" && names[i] != "_" {
 				env.vars[names[i]] = v
@@ -309,10 +316,6 @@ func (w *World) VerifyFunc(fn *ssa.Function) *Ctx {
 		o := f.oblige("ensures", key, goal, fn.Pos(), e.Text)
 		_ = o
 	}
-	// frame
-	if ct.HasAssigns && !ct.NoFrame {
-		w.frameObligations(c, f, ct)
-	}
 	c.emitAxioms()
 	// cover: every return reachable (vacuity guard)
 	if len(f.rets) > 0 {
@@ -326,13 +329,15 @@ func (w *World) VerifyFunc(fn *ssa.Function) *Ctx {
 	return c
 }
 
-// frameObligations: every heap changed by the function is unchanged outside
-// the assigns targets, for objects that existed at entry.
-func (w *World) frameObligations(c *Ctx, f *Frame, ct *Contract) {
-	env := f.specEnv(f.entry, f.entry)
+// setupFrame evaluates the assigns clause at entry. Every write the body
+// performs (store, in-place append, copy, map update, callee assigns) then
+// generates an obligation: its target is fresh (allocated by this call) or
+// named in the clause.
+func (w *World) setupFrame(c *Ctx, f *Frame, ct *Contract, st *State) {
+	env := f.specEnv(st, st)
 	env.locals = false
-	allowed := map[string][]string{}
-	whole := map[string]bool{}
+	c.frameAllowed = map[string][]string{}
+	c.frameWhole = map[string]bool{}
 	for _, a := range ct.Assigns {
 		if a.Text == "*" {
 			return
@@ -346,47 +351,37 @@ func (w *World) frameObligations(c *Ctx, f *Frame, ct *Contract) {
 		}
 		for _, t := range ts {
 			if t.key == "" {
-				whole[t.heap] = true
+				c.frameWhole[t.heap] = true
 			} else {
-				allowed[t.heap] = append(allowed[t.heap], t.key)
+				c.frameAllowed[t.heap] = append(c.frameAllowed[t.heap], t.key)
 			}
 		}
+	}
+	c.frameOn = true
+}
+
+// frameCheck: a write to heap h at key k must be allowed by the assigns clause.
+func (f *Frame) frameCheck(h, k string, pos token.Pos, what string) {
+	c := f.c
+	if !c.frameOn || c.frameWhole[h] || c.suppress > 0 {
+		return
+	}
+	if h == allocHeap || strings.HasPrefix(h, "Iter") || h == "$iter" {
+		return
+	}
+	if strings.HasPrefix(k, "ref$") || strings.HasPrefix(k, "|ref$") {
+		return // allocated by this call
 	}
 	alloc0 := c.heap0[allocHeap]
-	heaps := map[string]bool{}
-	for _, r := range f.rets {
-		for h, t := range r.st.H {
-			if h == allocHeap || strings.HasPrefix(h, "Iter") || whole[h] {
-				continue
-			}
-			if t != c.heapInit(h, "") {
-				heaps[h] = true
-			}
-		}
+	if k == "" {
+		f.oblige("frame", f.srcKey(pos, what)+" "+h, "false", pos, "write to every "+h+" is not covered by the assigns clause")
+		return
 	}
-	var hs []string
-	for h := range heaps {
-		hs = append(hs, h)
+	alts := []string{"(>= " + k + " " + alloc0 + ")"}
+	for _, a := range c.frameAllowed[h] {
+		alts = append(alts, eq(k, a))
 	}
-	sort.Strings(hs)
-	for _, h := range hs {
-		var parts []string
-		for _, r := range f.rets {
-			t, ok := r.st.H[h]
-			if !ok || t == c.heap0[h] {
-				continue
-			}
-			conds := []string{"(< 0 r!f)", "(< r!f " + alloc0 + ")"}
-			for _, k := range allowed[h] {
-				conds = append(conds, not(eq("r!f", k)))
-			}
-			parts = append(parts, implies(r.guard, fmt.Sprintf("(forall ((r!f Int)) (=> %s (= (select %s r!f) (select %s r!f))))", and(conds...), t, c.heap0[h])))
-		}
-		if len(parts) == 0 {
-			continue
-		}
-		f.oblige("frame", h, and(parts...), f.fn.Pos(), "assigns clause: "+h+" unchanged elsewhere")
-	}
+	f.oblige("frame", f.srcKey(pos, what)+" "+h, or(alts...), pos, "write to "+h+" outside the assigns clause")
 }
 
 // assumeGlobalInits states facts about package-level variables that are never
@@ -398,7 +393,7 @@ func (w *World) assumeGlobalInits(c *Ctx, f *Frame, st *State) {
 func (w *World) contractFuncs() []*ssa.Function {
 	var out []*ssa.Function
 	for k, ct := range w.Specs.Contracts {
-		if ct.Kind != "func" {
+		if ct.Kind != "func" || ct.Trusted {
 			continue
 		}
 		if fn := w.FuncByKey[k]; fn != nil {
